@@ -113,7 +113,8 @@ func c36Canon(fn *ssa.Function) func(string) string {
 				continue
 			}
 			slot := "read(" + strings.TrimPrefix(arg, plan+".") + ")"
-			reps = append(reps, rep{renderCall(&call.Call, 0, nil), slot})
+			// (the fact itself is result #0; a read-only local bound to it renders as the call)
+			reps = append(reps, rep{renderCall(&call.Call, 0, nil) + "#0", slot}, rep{renderCall(&call.Call, 0, nil), slot})
 			// locals assigned from #0 of this call
 			if call.Referrers() == nil {
 				continue
